@@ -118,6 +118,11 @@ LAWS = [
     ("math.log(x + 1.0, y + 1.0)", "refuse"),
     ("k * divmod(x, y)[0]", "refuse"),
     ("k * round(x)", "refuse"),
+    # attribute calls on a namespace of the user's own whose members are merely CALLED like library functions
+    ("k * lib.pow(x, y)", "refuse"),
+    ("k * lib.log(x + 1.0) - y", "refuse"),
+    ("k * lib.sqrt(x) + lib.exp(y)", "refuse"),
+    ("k * lib.min(x, y)", "refuse"),
     ("k * math.trunc(x + 0.5)", "refuse"),
 ]
 BODIES = [  # multi-statement bodies: outside the single-expression subset
@@ -176,6 +181,30 @@ def half_plus(k):
 
 def neg_half(k):
     return -(k + 0.5)
+
+
+class lib:
+    """A namespace of the model author: same member names as the math library, other meanings."""
+
+    @staticmethod
+    def pow(a, b):
+        return a * b + 1.0
+
+    @staticmethod
+    def log(a):
+        return a + 2.0
+
+    @staticmethod
+    def sqrt(a):
+        return a * a
+
+    @staticmethod
+    def exp(a):
+        return 3.0 * a
+
+    @staticmethod
+    def min(a, b):
+        return a + b
 
 '''
 
